@@ -116,7 +116,10 @@ class CrashH(Harness):
             if ctl2 is not None:
                 # continue training on the survivor with the same metrics
                 m2, o2 = TC.StubModel(), TC.StubOptim(LR0)
-                ctl2.load_model_and_optimizer_for_epoch(m2, o2) if last else None
+                try:
+                    ctl2.load_model_and_optimizer_for_epoch(m2, o2) if last else None
+                except (FileNotFoundError, OSError, KeyError, RuntimeError, EOFError):
+                    pass  # already reported by _loadable ("cannot load ... last epoch")
                 for e in range(last + 1, E_ + 1):
                     m2.tok, o2.tok = ("model", e), ("optim", e)
                     ctl2.update_for_epoch(m2, o2, 1.0, vs[e - 1])
